@@ -415,8 +415,7 @@ theorem W_loopRead (s : S) (item : RxItem) (ok : Bool) (h : W s) : W (s.loopRead
   unfold loopRead
   split
   · exact h
-  · extract_lets maxPackets
-    split
+  · split
     · exact h
     · split
       rename_i s1 rc heq
@@ -437,9 +436,7 @@ theorem W_loopRead (s : S) (item : RxItem) (ok : Bool) (h : W s) : W (s.loopRead
           exact W_of_fst heq3 (W_loopRcHandle _ _ h2)
         · split
           · exact h2
-          · split
-            · split <;> exact h2
-            · exact h2
+          · split <;> exact h2
 
 theorem W_checkKeepalive (s : S) (h : W s) : W s.checkKeepalive := by
   unfold checkKeepalive
